@@ -22,6 +22,9 @@ type HarnessSpec struct {
 	Thorough map[string]int `json:"thorough"`
 	Tier     string         `json:"tier,omitempty"` // "thorough": only in thorough tier
 	Mode     string         `json:"mode,omitempty"` // "" sequential, "sched" schedule layer
+	// schedule harnesses: explicit scenario numbers per tier (instead of 0..scenarios-1)
+	QuickScenarios    []int `json:"quick_scenarios,omitempty"`
+	ThoroughScenarios []int `json:"thorough_scenarios,omitempty"`
 	Note     string         `json:"note,omitempty"`
 }
 
@@ -99,6 +102,8 @@ func cmdRun(args []string) int {
 	verbose := fs.Bool("v", false, "verbose")
 	only := fs.String("only", "", "run only harnesses whose name contains this")
 	noEvidence := fs.Bool("no-evidence", false, "do not write the evidence file")
+	overrides := paramFlags{}
+	fs.Var(overrides, "p", "override a harness parameter k=v (self-validation runs)")
 	fs.Parse(args)
 	vd := verifDir()
 	seed := 0
@@ -174,9 +179,16 @@ func cmdRun(args []string) int {
 				params[k] = v
 			}
 		}
+		for k, v := range overrides {
+			params[k] = v
+		}
 		var res *HarnessResult
 		if h.Mode == "sched" {
-			res = RunSched(l, f, params, *workers, timeoutMs, *verbose)
+			list := h.QuickScenarios
+			if *tier == "thorough" {
+				list = h.ThoroughScenarios
+			}
+			res = RunSchedList(l, f, params, list, *workers, timeoutMs, *verbose)
 		} else {
 			ex := &Explorer{L: l, Fn: f, Params: params, Workers: *workers, TimeoutMs: timeoutMs, Verbose: *verbose}
 			if mp, ok := params["max_paths"]; ok {
